@@ -202,6 +202,13 @@ def make_plan(seed: int, tier: str, index: int) -> dict[str, Any]:
     plan = {"property": PROP, "seed": seed, "text": text, "present": present, "clients": clients,
             "schedule": schedule}
     f = rng.stream(seed, "fault")
+    if present and g.random() < 0.3:
+        # the shared chart (and its twin, and every fresh parse) was parsed WITH a track selection:
+        # some, none or all difficulties of an instrument that the file has may be deselected
+        pool = [list(gen.HEADERS[h]) for h in present]
+        keep = [x for x in pool if g.random() < 0.5]
+        extra = [list(gen.HEADERS[g.choice(gen.ALL_HEADERS)]) for _ in range(g.choice([0, 0, 1]))]
+        plan["select"] = {"form": g.choice(["list", "tuple"]), "pairs": sorted(keep + extra)}
     if g.random() < 0.4:
         # a second parsed chart with a different track set lives in the same process and is used
         # by the same readers: nothing a reader does to one chart may show on the other
@@ -395,7 +402,8 @@ def do_op(chart: Any, twin: Any, op: dict[str, Any]) -> Any:
     raise HarnessError(f"unknown op {k}")
 
 
-def _pristine_results(text: str, other_text: str | None, clients: list[list[dict[str, Any]]]) -> dict[str, Any]:
+def _pristine_results(text: str, other_text: str | None, clients: list[list[dict[str, Any]]],
+                      select: Any = None) -> dict[str, Any]:
     """Every operation's result on a FRESH parse, computed in a process forked from the pristine
     image (one fresh parse per operation, so operations cannot influence each other either)."""
     from detsim import world
@@ -408,7 +416,7 @@ def _pristine_results(text: str, other_text: str | None, clients: list[list[dict
                 continue
             t = other_text if op.get("on") == "other" else text
             try:
-                fresh = world.parse_text(t)
+                fresh = world.parse_text(t, None if op.get("on") == "other" else select)
             except Exception as e:  # noqa: BLE001
                 out[f"{ci}.{k}"] = ["unparsable", type(e).__name__]
                 continue
@@ -447,13 +455,14 @@ def execute(plan: dict[str, Any]) -> dict[str, Any]:
 
     other_text = plan.get("other_text")
     try:
-        pristine = runner.in_fork(_pristine_results, text, other_text, plan["clients"], timeout=150)
+        pristine = runner.in_fork(_pristine_results, text, other_text, plan["clients"],
+                                  plan.get("select"), timeout=150)
     except runner.ChildFailure as e:
         return {"violations": [], "digest": "", "evals": 1,
                 "harness_error": f"reference computation failed: {e}"}
     try:
-        chart = world.parse_text(text)
-        twin = world.parse_text(text)
+        chart = world.parse_text(text, plan.get("select"))
+        twin = world.parse_text(text, plan.get("select"))
         other = other_twin = None
         if other_text is not None:
             other = world.parse_text(other_text)
@@ -520,7 +529,7 @@ def execute(plan: dict[str, Any]) -> dict[str, Any]:
                     if res is None:
                         pass
                     elif op["op"] != "compare" and not state["halt"]:
-                        fresh = world.parse_text(tgt_text)
+                        fresh = world.parse_text(tgt_text, None if on_other else plan.get("select"))
                         try:
                             exp: Any = ["ok", do_op(fresh, fresh, op)]
                         except BaseException as e:  # noqa: BLE001
@@ -596,6 +605,7 @@ def execute(plan: dict[str, Any]) -> dict[str, Any]:
                 "after all read-only operations the second chart differs from its untouched twin")
     probes["cold_runs"] = 1 if cold else 0
     probes["runs_with_second_chart"] = 1 if other is not None else 0
+    probes["runs_with_selection"] = 1 if plan.get("select") is not None else 0
     world.drain_log()
     all_ops = [op for c in plan["clients"] for op in c]
     has_special = any(_absent_flag(op, present) for op in all_ops) or n_failing > 0
